@@ -329,7 +329,19 @@ func runPoolOps(cfg poolCfg, ops []poolOp) (tr poolTrace) {
 			if held[op.W] {
 				continue
 			}
-			actx, cancel := context.WithTimeout(ctx, 40*time.Millisecond)
+			// an Acquire that has to wait for a free slot is given up after 40 ms ("blocked"); when the harness holds fewer
+			// handles than MaxConns the pool must not block, and dialing + handshake get the time a loaded machine needs
+			nheld := 0
+			for _, hv := range held {
+				if hv {
+					nheld++
+				}
+			}
+			ato := 40 * time.Millisecond
+			if nheld < cfg.MaxConns {
+				ato = 2 * time.Second
+			}
+			actx, cancel := context.WithTimeout(ctx, ato)
 			h, err := pool.Acquire(actx)
 			cancel()
 			if err != nil {
